@@ -661,9 +661,13 @@ func (p *Parser) applyPrefixNewlines(v *lisp.LVal, newlines int, spaces int) {
 			m.BlankLinesBefore = n - 1
 		}
 	} else {
-		if newlines >= 1 {
-			m.NewlineBefore = true
-		}
+		// The prefix token is this node's first token, so its gap is THE gap.
+		// tokenLVal filled these in from the operand's last token (its closing
+		// bracket); only ever raising them left a stale "starts a line" on
+		// every prefix form whose operand closes on a new line, and
+		// (f (lisp:expr (a\n))) then formatted differently on a second pass.
+		m.NewlineBefore = newlines >= 1
+		m.BlankLinesBefore = 0
 		if newlines > 1 {
 			m.BlankLinesBefore = newlines - 1
 		}
